@@ -59,6 +59,7 @@ fn real_main() -> i32 {
     let opts = RunOpts { tier, seed, replay, cases_override, shards_override };
     let code = match id.as_str() {
         "C12" => run_engine(&engines::c12_multisig::C12, &opts),
+        "C16" => run_engine(&engines::c16_paych::C16, &opts),
         _ => {
             eprintln!("unknown property {id}");
             2
